@@ -25,12 +25,12 @@ pub fn make(s: &Value) -> AffTree<2> {
         "argmax" => schema::argmax(dim),
         "class_characterization" => schema::class_characterization(dim, us(&s["clazz"])),
         "inf_norm" => schema::inf_norm(dim,
-            if s["min"].is_null() { None } else { Some(f(&s["min"], q)) },
-            if s["max"].is_null() { None } else { Some(f(&s["max"], q)) }),
+            if s["hasmin"].as_bool().unwrap_or(false) { Some(f(&s["min"], q)) } else { None },
+            if s["hasmax"].as_bool().unwrap_or(false) { Some(f(&s["max"], q)) } else { None }),
         "new" => AffTree::<2>::new(dim),
         "from_aff" => AffTree::<2>::from_aff(aff_from(&s["aff"])),
         "from_poly" => {
-            let ff = if s.get("f").map(|v| v.is_null()).unwrap_or(true) || s["f"].get("none").is_some() { None } else { Some(aff_from(&s["f"])) };
+            let ff = if s["hasf"].as_bool().unwrap_or(false) { Some(aff_from(&s["f"])) } else { None };
             AffTree::<2>::from_poly(poly_from(&s["poly"]), aff_from(&s["t"]), ff.as_ref()).expect("from_poly")
         }
         other => panic!("unknown schema {}", other),
